@@ -17,6 +17,13 @@
 //     signed content (also empty) x presented content (also empty and an equal-length twin) x reader shapes;
 //     (ix) required-metadata KEYS that are not plain words (reserved prefix, near miss, empty, case/blank
 //     variants) through all five entry points;
+//   - faults.go (round 5) (x) the blob reader as an environment that FAILS part-way: error value (permanent, flagged
+//     temporary / timeout, real errnos, wrapped io.EOF ...) x position x error alone or with data x returned once,
+//     twice or for ever x reader capability (io.Reader only, io.Seeker, io.Seeker whose Seek fails, io.WriterTo),
+//     against genuine signatures for the content, for its part before and after the fault position and for the empty blob;
+//   - pairs.go (round 5) (xi) required pairs that differ from the signed pairs as pairs and agree under a flattening
+//     into strings (key<sep>value for 15 separators, whole maps joined, values equal after normalisation), through
+//     all five entry points;
 //   - every call now receives a private copy of the required-metadata map, the oracle keeps the pristine one
 //     (the code writing into the caller's map used to change the oracle's expectation as well);
 //   - replay.go: a replay trusts the stored envelope's own copy of a trusted root (certificates are regenerated
@@ -32,7 +39,6 @@ import (
 	"errors"
 	"fmt"
 	"io"
-	"os"
 	"sort"
 	"strings"
 	"sync"
@@ -507,10 +513,12 @@ func runBlobVia(r *hx.Run, w *world, e *env, content []byte, statedMT string, re
 
 func main() {
 	r := hx.New("C01")
-	r.Rule = "every element of the product (envelope family member x presented artifact x required metadata x enforcement map x trust-store answer x plugin manager) is verified once by the real verifier; non-trivial = distinct cases in which verification succeeded (the oracle is evaluated only there) plus distinct mutated/re-assembled envelopes that still parse; further families: hand-made payload byte shapes with hand-labelled admissible readings x presented artifacts (also lacking members) x both blob entry points; every two-call history (first call, then the judged call with a fresh or the very same required-metadata map object) on one fresh verifier; notation.Verify over every list of 1..3 signatures of a collision alphabet x paging"
+	r.Rule = "every element of the product (envelope family member x presented artifact x required metadata x enforcement map x trust-store answer x plugin manager) is verified once by the real verifier; non-trivial = distinct cases in which verification succeeded (the oracle is evaluated only there) plus distinct mutated/re-assembled envelopes that still parse; further families: hand-made payload byte shapes with hand-labelled admissible readings x presented artifacts (also lacking members) x both blob entry points; every two-call history (first call, then the judged call with a fresh or the very same required-metadata map object) on one fresh verifier; notation.Verify over every list of 1..3 signatures of a collision alphabet x paging; notation.VerifyBlob over every faulty view of a presented content (error value x position x error alone or with data x repetition x reader capability) x genuine signatures for the content, for the bytes before / after the fault position and for the empty blob; every (signed map, required map) of each group of metadata maps that collide when pairs or maps are flattened into strings (key<sep>value, joined maps, normalised values) x the five entry points"
 	r.Assumptions = []string{"RSA-PSS/ECDSA/SHA-2 are sound (forgery without the key is not attempted)", "oracle signature check is lib/refsig (standard library only)", "byte mutations cover Hamming distance 1 per byte position with values {^1,^0x80,0} and every truncation",
 		"hand-made payloads: content that is not exactly one JSON document holding a target descriptor is not a Notary payload; where JSON leaves the reading open (member name twice, other letter case, BOM) every reading is admissible",
-		"a caller that hands the same required-metadata map object to a second call still requires what it put into the map (the library emptying the map does not lower the requirement)"}
+		"a caller that hands the same required-metadata map object to a second call still requires what it put into the map (the library emptying the map does not lower the requirement)",
+		"a blob reader that returns an error part-way is a faulty view of the presented content: the artifact under verification is the whole content the reader delivers when read until io.EOF (an error other than io.EOF itself is not the end of the content; after a Seek to the start the content is delivered again); whether such an error leads to rejection, a retry or a rewind is not judged",
+		"a required metadata pair is present only if the signed annotations hold exactly that key with exactly that value (byte-wise)"}
 	w := buildWorld()
 
 	if r.Replay != "" {
@@ -573,13 +581,6 @@ func main() {
 
 	pluginExt := []forge.Attr{{Key: forge.HdrPlugin, Critical: true, Value: "acceptall"}}
 
-	if os.Getenv("C01_DEV") != "" { // DEVTEMP
-		extra := &ctl{}
-		readerFaultFamily(r, w, []vt.Level{strictL, auditAllLog}, fewLevels, extra)
-		pairEncodingFamily(r, w, fewLevels, extra)
-		fmt.Println("dev controls", extra.ok, extra.n)
-		r.Finish()
-	}
 	// ---------- family (i): fresh envelopes ----------
 	var fresh []*env
 	var freshBlob []*env
